@@ -161,8 +161,9 @@ func genResp(g *lp.Gen, tr *track.Tracker, lg *nullLogger) {
 		s.setH(g.Pick("X-A", "Cache-Control", "Server", "X-Request-Id"), value(g, 40))
 	}
 	if g.Chance(1, 6) {
-		s.add("A " + hx("Set-Cookie") + " " + hx("a="+value(g, 8)))
-		s.add("A " + hx("Set-Cookie") + " " + hx("b="+value(g, 8)))
+		// two values of one field name, in either lexical order: their wire order is the handler's (compared)
+		s.add("A " + hx("Set-Cookie") + " " + hx(g.Pick("a=", "z=")+value(g, 8)))
+		s.add("A " + hx("Set-Cookie") + " " + hx("m="+value(g, 8)))
 	}
 	if g.Chance(1, 4) {
 		s.setH("X-Pad", strings.Repeat("p", 1+g.Intn(g.PickInt(50, 900, 3000))))
